@@ -757,6 +757,9 @@ class Adversary(Scheduling):
         return allocs, status, task_pool
 
 
+REUSE = {}
+
+
 def make_algorithms(case, probe):
     """(planning model, scheduling algorithm) for case['alg']."""
     alg = case.get("alg", {"kind": "queue"})
@@ -792,6 +795,10 @@ def make_algorithms(case, probe):
                  else GreedySchedulingFromPlan())
     else:
         raise HarnessError("unknown algorithm kind %r" % kind)
+    if alg.get("reuse"):
+        # the SAME policy object drives several simulations of one history
+        # (case["before"]): what it remembers must not leak into the next
+        inner = REUSE.setdefault((alg["reuse"], kind), inner)
     if kind.startswith("adv"):
         sched = Adversary(inner, probe, alg.get("budget", 1),
                           alg.get("api", False))
